@@ -1485,6 +1485,33 @@ func (vc *VC) implementors(it types.Type) []types.Type {
 
 var implMemo = map[string][]types.Type{}
 
+// repoImplementors: every repository type implementing the interface, whether or not the interface is closed
+// (for `conforms repo`: the contract stays ASSUMED for implementations outside the repository).
+func (vc *VC) repoImplementors(it types.Type) []types.Type {
+	iface, ok := it.Underlying().(*types.Interface)
+	if !ok {
+		return nil
+	}
+	var names []string
+	for n := range vc.P.TypesByName {
+		names = append(names, n)
+	}
+	sortStrings(names)
+	var out []types.Type
+	for _, n := range names {
+		T := vc.P.TypesByName[n]
+		if _, isI := T.Underlying().(*types.Interface); isI {
+			continue
+		}
+		if types.Implements(T, iface) {
+			out = append(out, T)
+		} else if types.Implements(types.NewPointer(T), iface) {
+			out = append(out, types.NewPointer(T))
+		}
+	}
+	return out
+}
+
 // invokeDispatch: split an interface method call over the closed implementor set.
 func (fr *Frame) invokeDispatch(c *ssa.CallCommon, impls []types.Type, recv Val, args []Val, rt types.Type, pos token.Pos) Val {
 	vc := fr.vc
